@@ -538,6 +538,13 @@ func crafted(entry string, p []piece) {
 				dec(entry, "hostile-len", append(append(append([]byte{}, prefix...), enc...), bytes.Repeat([]byte{0xab}, 40)...))
 			}
 		}
+		// a length far beyond the data with MORE than one read chunk of data actually present: what is reserved must
+		// follow what has arrived, at every stage of the read, not only at its start
+		for _, v := range []uint64{1 << 20, 1 << 28, 1 << 31, 1 << 40, 1<<64 - 1} {
+			for _, present := range []int{4097, 5000, 9000} {
+				dec(entry, "hostile-len-after-first-chunk", append(append(append([]byte{}, prefix...), vi9(v)...), bytes.Repeat([]byte{0xab}, present)...))
+			}
+		}
 		for _, sv := range shortVarints() {
 			dec(entry, "short-varint", append(append([]byte{}, prefix...), sv...))
 		}
@@ -702,6 +709,6 @@ func main() {
 	}
 
 	runReqs()
-	c.Stats.Rule = "binary: regression corpus; random bytes (bare and behind a plausible header) into every entry point; every truncation offset and every single-bit flip of valid std+extended transactions, lists, inputs, outputs; a 1-in/1-out template with each count/length varint replaced by {2^16,2^31,2^32,2^40,2^63,2^64-1, and counts whose product with an element size of 9/33/37/41/45/149 (or 8/32/36/40) bytes wraps to a small number} (9-byte and shortest encodings; rest of the template / nothing / 40 filler bytes following) and by every truncated varint (ff+0..7, fe+0..3, fd+0..1 bytes); script lengths around the 4096-byte chunking fully/partly supplied. Each input is decoded through bytes.Reader, iotest.OneByteReader, a 1..7-byte chunk reader, DataErrReader and HalfReader (results must agree), plus NewTxFromStream/NewTxFromBytes for transactions. JSON: documents for *bt.Tx, tx.NodeJSON(), txs.NodeJSON(), output.NodeJSON(), *bt.UTXO, utxo.NodeJSON() with each optional object missing/null/mistyped, bad/odd hex, one- and two-character hex strings, 0x prefixes, null list elements, hostile tx hex. distinct = distinct (entry point, input); non-trivial = binary inputs on which the decoder consumed at least one byte, JSON documents that encoding/json passes on to the library code"
+	c.Stats.Rule = "binary: regression corpus; random bytes (bare and behind a plausible header) into every entry point; every truncation offset and every single-bit flip of valid std+extended transactions, lists, inputs, outputs; a 1-in/1-out template with each count/length varint replaced by {2^16,2^31,2^32,2^40,2^63,2^64-1, and counts whose product with an element size of 9/33/37/41/45/149 (or 8/32/36/40) bytes wraps to a small number} (9-byte and shortest encodings; rest of the template / nothing / 40 filler bytes following; lengths 2^20..2^64-1 with 4097 / 5000 / 9000 bytes present) and by every truncated varint (ff+0..7, fe+0..3, fd+0..1 bytes); script lengths around the 4096-byte chunking fully/partly supplied. Each input is decoded through bytes.Reader, iotest.OneByteReader, a 1..7-byte chunk reader, DataErrReader and HalfReader (results must agree), plus NewTxFromStream/NewTxFromBytes for transactions. JSON: documents for *bt.Tx, tx.NodeJSON(), txs.NodeJSON(), output.NodeJSON(), *bt.UTXO, utxo.NodeJSON() with each optional object missing/null/mistyped, bad/odd hex, one- and two-character hex strings, 0x prefixes, null list elements, hostile tx hex. distinct = distinct (entry point, input); non-trivial = binary inputs on which the decoder consumed at least one byte, JSON documents that encoding/json passes on to the library code"
 	c.Finish()
 }
